@@ -127,6 +127,9 @@ func build(window string, data int) *world {
 // frozenClaimSkew: added to the frozen height t6's input claims for the output it spends (0: faithful)
 var frozenClaimSkew int64
 
+// skipProbe: the harnesses whose subject is not admission behaviour leave the final probe submission out
+var skipProbe bool
+
 // deepWorld: set by the harnesses that need a chain of depth 4 (finality windows of 2)
 var deepWorld bool
 
@@ -286,7 +289,7 @@ func walksFrom(K int, window string, data int, anyStart bool) {
 		vrt.Assert(live.Irrev >= irrBefore, "irreversible-height-never-decreases")
 		vrt.Assert(live.Window == wnd, "window-survives")
 	}
-	if !anyStart {
+	if !anyStart || skipProbe {
 		return
 	}
 	// behaviour, not only answers: the node that got here by plays, walks and restarts admits or
@@ -321,7 +324,7 @@ func VerifC01Deep()     { walks(3, "0", 0) }
 func VerifC01AnyStart() { walksFrom(2, "0", 0, true) }
 
 // VerifC17AnyStart: window 2 on the deep world, the node starts at any block, then 2 operations
-func VerifC17AnyStart() { deepWorld = true; walksFrom(2, "2", 0, true) }
+func VerifC17AnyStart() { deepWorld, skipProbe = true, true; walksFrom(2, "2", 0, true) }
 func VerifC17Walks()    { walks(3, "1", 0) }
 func VerifC17Walks2()   { walks(3, "2", 0) }
 
@@ -1318,4 +1321,4 @@ func VerifC12PlayVsSubmit() { verifC12PlayVsSubmit() }
 // VerifC01FrozenClaim: as VerifC01AnyStart, but the spender of the once-frozen output claims another
 // frozen height in its input than the output really has (the input's field is covered by the signed
 // digest, chosen by the spender, and not compared with the output on admission).
-func VerifC01FrozenClaim() { frozenClaimSkew = 1; walksFrom(2, "0", 0, true) }
+func VerifC01FrozenClaim() { frozenClaimSkew, skipProbe = 1, true; walksFrom(2, "0", 0, true) }
